@@ -31,6 +31,10 @@ def clause_key(logic, c, shape, over=True):
         return 'unsaturated:frame-rule-unapplied:rules.AccessNodeRule(MaxWorlds silent stop)'
     if c == 6:
         return 'unsaturated:serial-successor-missing:rules.access.Serial(_should_apply)'
+    if c == 7:
+        return 'unsaturated:identity-symmetry:cpl.IdentityIndiscernability(never yields b = a from a = b)'
+    if c == 8:
+        return 'unsaturated:identity-single-occurrence:cpl.IdentityIndiscernability(replaces all occurrences at once)'
     return f'unsaturated:{logic}:{CLAUSE.get(c, str(c))}:{shape}'
 
 
@@ -104,6 +108,10 @@ def gen_jobs(logics, examples, tier, seed):
         for _ in range(n_rand):
             prems, concl = c01.rand_arg(rng, L['modal'], L['quantified'])
             jobs.append(dict(logic=n, premises=prems, conclusion=concl, kind='random', models=True))
+        if 'SelfIdentityClosure' in L['closure']:
+            # identity: symmetry, single-occurrence substitution, transitivity through a mirror image
+            for a in ('Imn:Inm', 'Fmn:Fmm:Imn', 'Imo:Inm:Ino', 'Fnm:Fmn:Imn'):
+                jobs.append(dict(logic=n, argstr=a, kind='identity', models=True))
     for i, j in enumerate(jobs):
         j['id'] = i
     return jobs
@@ -128,6 +136,7 @@ def run(args) -> int:
     jobs = gen_jobs(logics, examples, args.tier, args.seed)
     orders = [0] if args.tier == 'quick' else [0, 1, 2]
     n_branches = n_cert = 0
+    model_err_unattributed, model_err_attributed = {}, set()
     for order in orders:
         res = probe_json('probe_gproofs.py', stdin=json.dumps(dict(jobs=jobs)), timeout=6000, order=order)['results']
         exprs, idx = [], []
@@ -148,26 +157,33 @@ def run(args) -> int:
                     chk.count('branches', 'limit-flag (excluded)')
                     continue
                 chk.count('branches', 'limit-free open')
-                if ob.get('model') is None:
+                if ob.get('model') is None and not r.get('model_error'):
                     chk.violation(f'model:{n}:missing', f'{n}: an open branch of an invalid tableau has no model',
                                   dict(kind='branch', job=job, order=order, branch=ob['index']))
                     continue
                 S = f'(fl_S FL_{i})'
-                M = f'(model_of {ob["model"]})'
-                exprs.append(f'(failing_from {S} {M} 0 {ob["nodes"]}, is_countermodel {S} {M} {r["prems"]} {r["concl"]}, '
-                             f'unsaturated FLA_{i} {ob["nodes"]} {ob["ticked"]}, branch_okb FLA_{i} {ob["nodes"]} {ob["ticked"]})')
+                sat = (f'unsaturated FLA_{i} {ob["nodes"]} {ob["ticked"]}, branch_okb FLA_{i} {ob["nodes"]} {ob["ticked"]}, '
+                       f'ident_unsaturated FLA_{i} {ob["nodes"]}')
+                if ob.get('model') is None:
+                    # the model builder raised ModelValueError for this tableau: no model to evaluate, saturation only
+                    exprs.append(f'(@nil nat, true, {sat})')
+                else:
+                    M = f'(model_of {ob["model"]})'
+                    exprs.append(f'(failing_from {S} {M} 0 {ob["nodes"]}, is_countermodel {S} {M} {r["prems"]} {r["concl"]}, {sat})')
                 idx.append((job, r, ob))
         answers = coq_eval_cases('C02', HEADER + 'Require Import GC02.Rules GC02.Logics.\n', exprs, shard=200,
                                  name=f'Branches{order}_')
         for (job, r, ob), ans in zip(idx, answers):
             n = job['logic']
             n_branches += 1
-            m = re.match(r'\(\[(.*?)\], (true|false), \[(.*)\], (true|false)\)$', ans)
+            m = re.match(r'\(\[(.*?)\], (true|false), \[(.*?)\], (true|false), \[(.*)\]\)$', ans)
             if not m:
                 raise MachineryError(f'cannot parse branch status: {ans[:200]}')
             failing = [int(x) for x in m.group(1).split(';') if x.strip()]
             cm = m.group(2) == 'true'
             unsat = [(int(a), int(b_)) for a, b_ in re.findall(r'\((\d+), (\d+)\)', m.group(3))]
+            ident = [(int(a), int(b_)) for a, b_ in re.findall(r'\((\d+), (\d+)\)', m.group(5))]
+            unsat_all = unsat + ident
             if m.group(4) == 'true' and has_thm.get(n):
                 chk.count('branches', 'under theorem C02_saturated_branch')
             label = job.get('example') or [job.get('premises'), job.get('conclusion')]
@@ -177,13 +193,22 @@ def run(args) -> int:
                                  countermodel=cm, unsaturated=unsat[:3]) if nontriv and len(chk.samples) < 8 else None)
             rep = dict(kind='branch', logic=n, example=job.get('example'), premises=job.get('premises'),
                        conclusion=job.get('conclusion'), argstr=r['argstr'], order=order, branch=ob['index'],
-                       failing_nodes=failing, countermodel=cm, unsaturated=unsat, lib_node_ok=ob['lib_node_ok'],
-                       lib_countermodel=ob['lib_countermodel'])
-            lib_fail = [k for k, v in enumerate(ob['lib_node_ok']) if v is not True]
+                       failing_nodes=failing, countermodel=cm, unsaturated=unsat, lib_node_ok=ob.get('lib_node_ok'),
+                       lib_countermodel=ob.get('lib_countermodel'))
+            lib_fail = [k for k, v in enumerate(ob.get('lib_node_ok') or []) if v is not True]
             coq_bad = bool(failing) or not cm
-            lib_bad = bool(lib_fail) or ob['lib_countermodel'] is not True
+            lib_bad = bool(lib_fail) or ob.get('lib_countermodel') is not True
             over = ob.get('max_worlds') is not None and ob.get('n_worlds', 0) > ob['max_worlds']
-            keys = sorted({clause_key(n, c, ('frame' if c in (4, 6) else ob['shapes'][k]), over) for k, c in unsat})
+            keys = sorted({clause_key(n, c, ('frame' if c in (4, 6, 7, 8) else ob['shapes'][k]), over) for k, c in unsat_all})
+            if ob.get('model') is None:
+                # ModelValueError while reading this tableau's open branches
+                rep.update(model_error=r.get('model_error'), tb=r.get('model_tb'))
+                if not unsat_all:
+                    model_err_unattributed.setdefault((n, r['argstr'], order), rep)
+                    continue
+                model_err_attributed.add((n, r['argstr'], order))
+                lib_bad = True
+            unsat = unsat_all
             if not coq_bad and not lib_bad and not unsat:
                 n_cert += 1
                 continue
@@ -200,7 +225,13 @@ def run(args) -> int:
                 continue
             chk.violation(f'countermodel:{n}:saturated-branch-not-satisfied',
                           f"{n}: the model read off a saturated open branch does not satisfy nodes {failing or lib_fail} "
-                          f"(countermodel: evaluator {cm}, library {ob['lib_countermodel']}); argument {r['argstr']}", rep)
+                          f"(countermodel: evaluator {cm}, library {ob.get('lib_countermodel')}); argument {r['argstr']}", rep)
+    for k3, rep in model_err_unattributed.items():
+        if k3 in model_err_attributed:
+            continue    # some open branch of the same tableau explains the refusal (reported under its call-site key)
+        chk.violation(f'run:{k3[0]}:exception:ModelValueError',
+                      f"{k3[0]}: reading the models of the open branches of {k3[1]} raised {rep.get('model_error')} "
+                      'although every open branch is saturated', rep)
     chk.notes['open_branches_certified'] = n_cert
     chk.notes['open_branches_examined'] = n_branches
     chk.notes['traces_validated_against_impl'] = n_cert
